@@ -20,7 +20,7 @@ import z3
 from .common import *  # noqa
 from . import domains as D
 from .forwarding import estimators_all
-from engine import fx
+from engine import fx, xcheck
 
 
 def _interval_formula(c, v, is_int):
@@ -84,8 +84,12 @@ def domain_equivalence():
                 m = s.model()
                 det = {"counter_value": str(m.eval(v, model_completion=True)), "is_integer": str(m.eval(is_int, model_completion=True)), "replayed": False}
             ok_none = none == spec[-1]
-            obs.append(Ob(f"domain {name}: forall v. code accepts v <=> documented {spec}", PROVED if r == z3.unsat else (REFUTED if r == z3.sat else UNDECIDED),
-                          "z3", "P", det, fn=fn))
+            st = PROVED if r == z3.unsat else (REFUTED if r == z3.sat else UNDECIDED)
+            if r == z3.unsat:
+                det["xcheck"] = xcheck.second_opinion(s)
+                if det["xcheck"].startswith("DISAGREE"):
+                    st = UNDECIDED
+            obs.append(Ob(f"domain {name}: forall v. code accepts v <=> documented {spec}", st, "z3", "P", det, fn=fn))
             obs.append(Ob(f"domain {name}: None accepted iff documented", PROVED if ok_none else REFUTED, "table", "P",
                           {"code accepts None": none, "documented": spec[-1]}, fn=fn))
         elif spec[0] == "options":
